@@ -274,6 +274,37 @@ fn run(args: Args) -> Report {
         t.push_str("  a\n}\n");
         long.push((format!("chain:use-statements:{n}"), vec![("/ws/pkg/src/long.gleam".into(), t)]));
     }
+    // ... and chains ACROSS definitions: every definition mentions the next one, so whatever
+    // is computed per definition by asking for the one it mentions (a callee's type, an alias'
+    // expansion, a constant's type) nests once per link when the first is asked first.
+    for n in [3_000usize] {
+        let chain = |head: &dyn Fn(usize) -> String, last: String, tail: &str| -> String {
+            let mut t = String::new();
+            for i in 0..n - 1 {
+                t.push_str(&head(i));
+            }
+            t.push_str(&last);
+            t.push_str(tail);
+            t
+        };
+        let defs: Vec<(&str, String)> = vec![
+            ("fn-calls-next", chain(&|i| format!("pub fn f{i}(x) {{ f{}(x) + {i} }}\n", i + 1), format!("pub fn f{}(x) {{ x }}\n", n - 1), "")),
+            ("fn-calls-previous", {
+                let mut t = String::from("pub fn f0(x) { x }\n");
+                for i in 1..n {
+                    t.push_str(&format!("pub fn f{i}(x) {{ f{}(x) + {i} }}\n", i - 1));
+                }
+                // the caller of the deepest one comes first in the file
+                format!("pub fn top(x) {{ f{}(x) }}\n{t}", n - 1)
+            }),
+            ("alias-of-next", chain(&|i| format!("pub type A{i} = A{}\n", i + 1), format!("pub type A{} = Int\n", n - 1), "pub fn f(x: A0) { x + 1 }\n")),
+            ("const-is-next", chain(&|i| format!("pub const c{i} = c{}\n", i + 1), format!("pub const c{} = 1\n", n - 1), "pub fn f() { c0 + 1 }\n")),
+            ("type-wraps-next", chain(&|i| format!("pub type T{i} {{ T{i}(inner: T{}) }}\n", i + 1), format!("pub type T{} {{ T{} }}\n", n - 1, n - 1), "pub fn f(x: T0) { x.inner.inner.inner }\n")),
+        ];
+        for (name, text) in defs {
+            long.push((format!("defs:{name}:{n}"), vec![("/ws/pkg/src/long.gleam".into(), text)]));
+        }
+    }
     for (i, (name, mut files)) in long.into_iter().enumerate() {
         if i % args.nshards != args.shard {
             continue;
